@@ -147,11 +147,12 @@ class FieldType:
 
 
 def _freeze(value):
-    """Return a hashable equivalent of a packed value: lists become tuples, dicts become tuples of items."""
+    """Return a hashable equivalent of a packed value: lists become tuples, dicts become frozensets of items."""
     if isinstance(value, (list, tuple)):
         return tuple(_freeze(v) for v in value)
     if isinstance(value, dict):
-        return tuple((k, _freeze(v)) for k, v in value.items())
+        # equal dicts must hash equal whatever their insertion order
+        return frozenset((k, _freeze(v)) for k, v in value.items())
     return value
 
 
